@@ -239,6 +239,24 @@ def vector_forms(ctx, k, K):
                 ctx.fail(cid, site, 'raises:' + type(baseline).__name__, dict(entry=site, form='1d', param=-1), '1-D array form raised %r' % (baseline,))
             continue
         cb = canon(baseline)
+        # two vector parameters: both of the wrong length, with the TOTAL number of elements right (elements would move from one to the other)
+        if len(vecs) == 2 and all(len(params[i][3]) == 1 for i in vecs):
+            n1, n2 = params[vecs[0]][1], params[vecs[1]][1]
+            for a_ in range(1, n1 + n2):
+                if a_ == n1:
+                    continue
+                v1, v2 = np.arange(a_, dtype=float) * 0.1 + 0.2, np.arange(n1 + n2 - a_, dtype=float) * 0.1 + 0.3
+                for fname in ('1d', 'list'):
+                    cid = 'C15/%s/both-lengths=%d+%d/%s' % (tag, a_, n1 + n2 - a_, fname)
+                    if not ctx.want(cid):
+                        continue
+                    ctx.case(cid, key=cid)
+                    args = [((v1.copy() if fname == '1d' else v1.tolist()) if i == vecs[0] else ((v2.copy() if fname == '1d' else v2.tolist()) if i == vecs[1] else (p[2].copy() if p[0] == 'v' else p[1])))
+                            for i, p in enumerate(params)]
+                    ok, r = call(f, *args, **kw)
+                    if ok:
+                        ctx.fail(cid, site, 'no-raise' if r is not None else 'returns:NoneType', dict(entry=site, form=fname, length=a_, expected=n1, param=vecs[0]),
+                                 'vectors of %d and %d elements where %s expects %d and %d were accepted and gave %s' % (a_, n1 + n2 - a_, site, n1, n2, type(r).__name__))
         for pi in vecs:
             _, n, vec, lens, _ = params[pi]
             for ints in (False, True):
